@@ -603,6 +603,26 @@ func init() {
 				if r.Chance(2, 3) {
 					EnrichWorkload(r.Fork("enrich"), w, dir)
 				}
+				if r.Chance(1, 8) {
+					// parameters that refer to themselves or to each other: legal YAML, and
+					// exactly what `--parameters output_dir=%output_dir%/v2` produces
+					if w.Params == nil {
+						w.Params = map[string]string{}
+					}
+					switch r.Intn(3) {
+					case 0:
+						w.Params["self"] = "%self%/v2"
+					case 1:
+						w.Params["ping"], w.Params["pong"] = "%pong%/a", "%ping%/b"
+					default:
+						w.Params["same"] = "%same%"
+					}
+					if w.TplData == nil {
+						w.TplData = map[string]string{}
+					}
+					w.TplData["Cyclic"] = Pick(r, []string{"%self%", "%ping%", "%same%"})
+					w.OutputDir = "out/%l/" + Pick(r, []string{"%self%", "%pong%", "x"})
+				}
 				p.W = w
 				if mode == "http" {
 					if !toURLInputs(w) {
